@@ -1,50 +1,15 @@
 use crate::bx::*;
 use muxide::verif_hooks::mp4::verif as mp4h;
 #[kani::proof]
-#[kani::unwind(30)]
-#[kani::stub(muxide::invariant_ppt::__assert_invariant_impl, crate::stubs::assert_invariant_stub)]
-pub fn x_mvhd_nocheck() {
-    let d: u32 = kani::any();
-    let p = mp4h::build_mvhd_payload(d);
-    assert!(p.len() == 100);
-}
-#[kani::proof]
-#[kani::unwind(30)]
-#[kani::stub(muxide::invariant_ppt::__assert_invariant_impl, crate::stubs::assert_invariant_stub)]
-pub fn x_mvhd_payload_check() {
-    let d: u32 = kani::any();
-    let p = mp4h::build_mvhd_payload(d);
-    assert!(p.len() == 100);
-    assert!(be32(&p, 16) == d);
-    assert!(be32(&p, 96) == 2);
-}
-#[kani::proof]
-#[kani::unwind(30)]
-#[kani::stub(muxide::invariant_ppt::__assert_invariant_impl, crate::stubs::assert_invariant_stub)]
-pub fn x_mvhd_box_nocheck() {
-    let d: u32 = kani::any();
-    let p = mp4h::build_mvhd_payload(d);
-    let b = mp4h::build_box(b"mvhd", &p);
-    assert!(b.len() == 108);
-}
-#[kani::proof]
-#[kani::unwind(30)]
-#[kani::stub(muxide::invariant_ppt::__assert_invariant_impl, crate::stubs::assert_invariant_stub)]
-pub fn x_mvhd_copy_check() {
-    let d: u32 = kani::any();
-    let p = mp4h::build_mvhd_payload(d);
-    let b = mp4h::build_box(b"mvhd", &p);
-    assert!(b.len() == 108);
-    let mut a = [0u8; 108];
-    a.copy_from_slice(&b);
-    let v = &a[..];
-    assert!(box_is(v, 0, 108, b"mvhd"));
-    assert!(be32(v, 8) == 0, "version 0 / flags 0");
-    assert!(be32(v, 20) == 1000, "timescale field");
-    assert!(be32(v, 24) == d, "duration field");
-    assert!(be32(v, 28) == 0x0001_0000, "rate 1.0");
-    assert!(be16(v, 32) == 0x0100, "volume 1.0");
-    assert!(zeros(v, 34, 44), "reserved");
-    assert!(identity_matrix(v, 44), "identity matrix");
-    assert!(zeros(v, 80, 104), "pre_defined");
+#[kani::unwind(22)]
+pub fn x_fmt_day0() {
+    let t: u64 = kani::any();
+    kani::assume(t < 86400);
+    let s = mp4h::format_unix_timestamp(t);
+    assert!(s.len() == 20);
+    let b = snap::<20>(s.as_bytes());
+    assert!(b[10] == b'T' && b[19] == b'Z');
+    let hh = (b[11] - b'0') as u64 * 10 + (b[12] - b'0') as u64;
+    assert!(hh == t / 3600);
+    core::mem::forget(s);
 }
